@@ -240,6 +240,12 @@ except Exception as e:
     print("eliminate raised %%r" %% (e,)); sys.exit(1)
 tot = c[0] * e1.net_stoich(["X"])[0] + c[1] * e2.net_stoich(["X"])[0]
 print("coefficients", c, "remaining X", tot)
+h1 = Equilibrium({"X": 1, "P": 1}, {"X": 1 + a}, 1) if sa > 0 else Equilibrium({"X": 1 + a}, {"X": 1, "P": 1}, 1)
+h2 = Equilibrium({"X": b}, {"Q": 1}, 1) if sb < 0 else Equilibrium({"Q": 1}, {"X": b}, 1)
+c2 = Equilibrium.eliminate([h1, h2], "X")
+tot2 = c2[0] * h1.net_stoich(["X"])[0] + c2[1] * h2.net_stoich(["X"])[0]
+print("species on both sides of one operand: coefficients", c2, "remaining X", tot2)
+if tot2 != 0 or 0 in c2: tot = 1
 g1 = Equilibrium({"X": a}, {"Y": 2}, 1) if sa < 0 else Equilibrium({"Y": 2}, {"X": a}, 1)
 g2 = Equilibrium({"X": b}, {"Y": 1}, 1) if sb < 0 else Equilibrium({"Y": 1}, {"X": b}, 1)
 can = g1.cancel(g2)
@@ -277,14 +283,19 @@ def task_eliminate(maxc):
         # that species in: the multiplier is 0
         g3 = Equilibrium({"X": bv, "Z": 1}, {"Y": 1}, 1) if s2 < 0 else Equilibrium({"Y": 1}, {"X": bv, "Z": 1}, 1)
         can3 = g1.cancel(g3)
-        return (av, bv, s1, s2), c, (can, can3)
+        # the species listed on BOTH sides of one operand (autocatalytic step): its NET coefficient is what has to be eliminated
+        h1 = Equilibrium({"X": 1, "P": 1}, {"X": 1 + av}, 1) if s1 > 0 else Equilibrium({"X": 1 + av}, {"X": 1, "P": 1}, 1)
+        h2 = Equilibrium({"X": bv}, {"Q": 1}, 1) if s2 < 0 else Equilibrium({"Q": 1}, {"X": bv}, 1)
+        c2 = Equilibrium.eliminate([h1, h2], "X")
+        return (av, bv, s1, s2), (c, c2), (can, can3)
 
     def goal(p, twin=False):
         if p.kind == "exc":
             return False
-        (av, bv, s1, s2), c, (can, can3) = p.value
+        (av, bv, s1, s2), (c, c2), (can, can3) = p.value
         v1, v2 = s1 * av, s2 * bv
         ok = len(c) == 2 and all(int(x) == x and x != 0 for x in c) and c[0] * v1 + c[1] * v2 == 0
+        ok = ok and len(c2) == 2 and all(int(x) == x and x != 0 for x in c2) and c2[0] * v1 + c2[1] * v2 == 0
         # cancel: smallest-magnitude truncated quotient -v1/v2 over the species of the second equilibrium
         def tq(a_, b_):
             q_ = abs(a_) // abs(b_)
